@@ -45,6 +45,11 @@ def s_big_frame():
     return pd.DataFrame({"n": range(1100000)})
 
 
+def s_reader():
+    vlog.hit("s_reader")
+    return ("reader", dds.load("/c7/p"))
+
+
 def s_dict():
     vlog.hit("s_dict")
     return {"value-of": "s_dict", "rows": [[i, "r%d" % i] for i in range(2000)], "end": True}
